@@ -504,3 +504,180 @@ def impl_uses(mods, source: str, limit=40):
                 got = "exc:" + type(e).__name__
             out.append((sid, nid, got))
     return m, out
+
+
+# ---------------------------------------------------------------------------------------------
+# part 3: property oracle (binding structure + execution before/after) on a deterministic family
+
+import contextlib
+import symtable
+
+NAME_PAIRS = [("myVar", "my_var"), ("myVar", "MY_VAR"), ("myVar", "my_Var"), ("MyVar", "myVar"), ("_myVar", "myVar"),
+              ("Id", "id"), ("Class_", "class_"), ("var_1", "var_2"), ("a", "b"), ("x1", "X1"), ("_1x", "x"),
+              ("é", "e"), ("naïve", "na_ve"), ("ABc", "a_bc"), ("a_b", "AB"), ("HTTPServer", "http_server")]
+
+# closed programs; {A} is bound in the way the template's name says, {B} is the adversary
+TEMPLATES = {
+    "func_assign": "def f():\n    {A} = 1\n    {B} = 2\n    print({A}, {B})\nf()\n",
+    "mod_assign": "{A} = 1\n{B} = 2\nprint({A}, {B})\n",
+    "mod_assign_only": "{A} = 1\nprint({A})\n",
+    "func_assign_only": "def f():\n    {A} = 1\n    print({A})\n    return {A}\nprint(f())\n",
+    "nested_store": "import sys\n{A} = 1\nif len(sys.argv) > 50:\n    {A} = 2\nprint({A})\n",
+    "for_target": "def f():\n    {A} = 0\n    for {A} in range(3):\n        pass\n    print({A})\nf()\n",
+    "for_tuple_target": "def f():\n    {A} = 0\n    for {B}, {A} in [(1, 2)]:\n        pass\n    print({A}, {B})\nf()\n",
+    "local_shadow": "{A} = 1\ndef f():\n    {A} = 2\n    print({A})\nf()\nprint({A})\n",
+    "param_shadow": "{A} = 1\ndef f({A}):\n    print({A})\nf(5)\nprint({A})\n",
+    "lambda_param": "{A} = 1\nf = lambda {A}: {A} + 1\nprint(f(5), {A})\n",
+    "comp_target": "def f():\n    {A} = 7\n    print([{A} for {A} in range(3)], {A})\nf()\n",
+    "comp_use": "def f():\n    {A} = 7\n    print([{A} + {B} for {B} in range(3)])\nf()\n",
+    "closure_before": "def f():\n    def g():\n        return {A}\n    {A} = 1\n    return g()\nprint(f())\n",
+    "closure_after": "def f():\n    {A} = 1\n    def g():\n        return {A}\n    return g()\nprint(f())\n",
+    "global_decl": "{A} = 1\ndef f():\n    global {A}\n    {A} = 2\nf()\nprint({A})\n",
+    "nonlocal_decl": "def f():\n    {A} = 1\n    def g():\n        nonlocal {A}\n        {A} = 2\n    g()\n    print({A})\nf()\n",
+    "except_as": "def f():\n    {A} = 1\n    try:\n        raise ValueError(3)\n    except ValueError as {B}:\n        print({B})\n    print({A})\nf()\n",
+    "except_as_same": "def f():\n    {A} = 1\n    try:\n        raise ValueError(3)\n    except ValueError as {A}:\n        print({A})\n    return 0\nf()\n",
+    "class_attr": "class K:\n    {A} = 1\n    def get(self):\n        return self.{A}\nprint(K().get())\n",
+    "class_attr_clash": "class K:\n    {A} = 1\n    def get(self):\n        self.{B} = 2\n        return self.{B}\nprint(K().get(), K.{A})\n",
+    "method": "class K:\n    def {A}(self):\n        return 1\n    def other(self):\n        return self.{A}()\nprint(K().other())\n",
+    "method_unused": "class K:\n    def {A}(self):\n        return 1\nprint(K is not None)\n",
+    "class_body_use": "class K:\n    {A} = 1\n    {B} = {A} + 1\nprint(K.{B})\n",
+    "keyword_arg": "def f({A}=1):\n    return {A}\nprint(f({A}=2))\n",
+    "func_name": "def {A}(v):\n    return v\nprint({A}(2))\n",
+    "func_name_kw": "def {A}(v):\n    return v\n{B} = 3\nprint({A}(v={B}))\n",
+    "func_recursive": "def {A}(n):\n    return 1 if n < 1 else n * {A}(n - 1)\nprint({A}(4))\n",
+    "cond_def": "import sys\ndef {A}():\n    return 1\nif len(sys.argv) < 50:\n    def {A}():\n        return 2\nprint({A}())\n",
+    "class_name": "class {A}:\n    v = 1\nprint({A}.v, {A}().v)\n",
+    "class_in_func": "def f():\n    class {A}:\n        v = 1\n    return {A}().v\nprint(f())\n",
+    "with_target": "import contextlib\ndef f():\n    {A} = 0\n    with contextlib.nullcontext(5) as {A}:\n        pass\n    print({A})\nf()\n",
+    "import_rebind": "def f():\n    {A} = 0\n    import os as {A}\n    print({A}.sep)\nf()\n",
+    "import_as_clash": "import os as {B}\ndef f():\n    {A} = 1\n    return {A}, {B}.sep\nprint(f())\n",
+    "import_dotted": "import os.path\ndef f():\n    Os = 1\n    {A} = 2\n    return Os, {A}, os.sep\nprint(f())\n",
+    "aug": "def f():\n    {A} = 1\n    {A} += 2\n    print({A})\nf()\n",
+    "aug_module": "{A} = 1\n{A} += 2\nprint({A})\n",
+    "del_": "def f():\n    {A} = 1\n    print({A})\n    del {A}\nf()\n",
+    "walrus": "def f():\n    {A} = 1\n    if ({A} := 5) > 2:\n        print({A})\nf()\n",
+    "star_target": "def f():\n    {A}, *{B} = [1, 2, 3]\n    print({A}, {B})\nf()\n",
+    "chain_assign": "def f():\n    {A} = {B} = 4\n    print({A}, {B})\nf()\n",
+    "tuple_assign": "{A}, {B} = 1, 2\nprint({A}, {B})\n",
+    "match_capture": "def f(p):\n    {A} = 1\n    match p:\n        case [{A}, 2]:\n            pass\n    print({A})\nf([5, 2])\n",
+    "load_before_def_module": "def g():\n    return {A}\n{A} = 3\nprint(g())\n",
+    "default_arg": "{A} = 4\ndef f(v={A}):\n    return v\nprint(f())\n",
+    "decorator": "def {A}(fn):\n    return fn\n@{A}\ndef g():\n    return 1\nprint(g())\n",
+    "fstring": "def f():\n    {A} = 1\n    return f'{{{A}}}!'\nprint(f())\n",
+    "annotation": "def f():\n    {A}: int = 1\n    return {A}\nprint(f())\n",
+    "typevar": "from typing import TypeVar\n{A} = TypeVar('{A}')\ndef f(v: {A}) -> {A}:\n    return v\nprint(f(1))\n",
+    "two_funcs_same_local": "def f():\n    {A} = 1\n    return {A}\ndef g():\n    {A} = 2\n    return {A}\nprint(f(), g())\n",
+    "attr_unrelated": "import types\no = types.SimpleNamespace({B}=5)\ndef f():\n    {A} = 1\n    return {A} + o.{B}\nprint(f())\n",
+    "unused_store": "def f():\n    {A} = 1\n    {B} = 2\n    return {B}\nprint(f())\n",
+    "unused_loop_var": "def f():\n    n = 0\n    for {A} in range(3):\n        n += 1\n    return n\nprint(f())\n",
+    "unused_then_used": "def f():\n    {A} = 1\n    {A} = 2\n    return {A}\nprint(f())\n",
+    "unused_closure": "def f():\n    {A} = 1\n    def g():\n        return {A}\n    {A} = 2\n    return g()\nprint(f())\n",
+    "unused_global": "{A} = 0\ndef f():\n    global {A}\n    {A} = 1\nf()\nprint({A})\n",
+    "dup_funcs": "def {A}():\n    return 1\ndef {B}():\n    return 1\nprint({A}(), {B}())\n",
+    "dup_funcs_local_clash": "def {A}():\n    return 1\ndef {B}():\n    return 1\ndef g():\n    {B} = 5\n    return {B} + {A}()\nprint(g(), {B}())\n",
+    "dup_funcs_param_clash": "def {A}():\n    return 1\ndef {B}():\n    return 1\ndef g({B}):\n    return {B} + {A}()\nprint(g(5), {B}())\n",
+}
+
+
+def run_program(src: str):
+    """(stdout, exception class | None) of a closed program"""
+    out = io.StringIO()
+    try:
+        code = compile(src, "<prog>", "exec")
+    except SyntaxError as e:
+        return ("", "SyntaxError")
+    try:
+        with contextlib.redirect_stdout(out), contextlib.redirect_stderr(io.StringIO()):
+            exec(code, {"__name__": "__main__"})
+        return (out.getvalue(), None)
+    except BaseException as e:  # noqa
+        return (out.getvalue(), type(e).__name__)
+
+
+def _sym_rows(table):
+    rows = []
+    for s in table.get_symbols():
+        rows.append((s.get_name(), (s.is_local(), s.is_global(), s.is_parameter(), s.is_free(), s.is_imported(),
+                                     s.is_assigned(), s.is_referenced(), s.is_namespace(), s.is_nonlocal(),
+                                     s.is_declared_global())))
+    return rows
+
+
+def binding_structure_diff(before: str, after: str):
+    """None when `after` is `before` with identifiers renamed by one injective map (same scopes, same
+    symbols with the same flags, in the same order); otherwise a description."""
+    try:
+        ta, tb = symtable.symtable(before, "<a>", "exec"), symtable.symtable(after, "<b>", "exec")
+    except SyntaxError as e:
+        return f"symtable: {e}"
+    rho, inv = {}, {}
+
+    def bind(x, y):
+        if rho.setdefault(x, y) != y:
+            return f"identifier {x!r} becomes both {rho[x]!r} and {y!r}"
+        if inv.setdefault(y, x) != x:
+            return f"identifiers {inv[y]!r} and {x!r} both become {y!r}"
+        return None
+
+    def walk(a, b):
+        if a.get_type() != b.get_type():
+            return f"scope kinds differ: {a.get_type()} / {b.get_type()}"
+        if a.get_name() != "top":
+            d = bind(a.get_name(), b.get_name())
+            if d:
+                return d
+        ra, rb = _sym_rows(a), _sym_rows(b)
+        if len(ra) != len(rb):
+            return f"scope {a.get_name()!r}: {len(ra)} symbols before, {len(rb)} after ({[r[0] for r in ra]} / {[r[0] for r in rb]})"
+        for (na, fa), (nb, fb) in zip(ra, rb):
+            if fa != fb:
+                return f"scope {a.get_name()!r}: symbol {na!r}->{nb!r} changes its binding flags"
+            d = bind(na, nb)
+            if d:
+                return d
+        ca, cb = a.get_children(), b.get_children()
+        if len(ca) != len(cb):
+            return f"scope {a.get_name()!r}: number of nested scopes differs"
+        for x, y in zip(ca, cb):
+            d = walk(x, y)
+            if d:
+                return d
+        return None
+
+    return walk(ta, tb)
+
+
+def oracle(mods, rule: str, src: str, structure: bool):
+    """run one renaming rule on a closed program; None or a failure description"""
+    fixes = mods["fixes"]
+    mods["core"].parse.cache_clear()
+    try:
+        with common.quiet():
+            if rule == "align":
+                new = fixes.align_variable_names_with_convention(src, preserve=frozenset())
+            elif rule == "undefine":
+                new = fixes.undefine_unused_variables(src, preserve=frozenset())
+            elif rule == "dup":
+                new = fixes.remove_duplicate_functions(src, preserve=frozenset())
+            elif rule == "format_code":
+                new = mods["main"].format_code(src)
+            else:
+                raise KeyError(rule)
+    except Exception as e:  # noqa
+        return dict(problem=f"{rule} raised {type(e).__name__}: {e}", output=None)
+    if new == src:
+        return None
+    a, b = run_program(src), run_program(new)
+    if a != b:
+        return dict(problem=f"behaviour differs: {a!r} -> {b!r}", output=new)
+    if structure:
+        d = binding_structure_diff(src, new)
+        if d:
+            return dict(problem="binding structure differs: " + d, output=new)
+    return None
+
+
+def sweep_cases():
+    for tname, tpl in TEMPLATES.items():
+        for a, b in NAME_PAIRS:
+            yield tname, a, b, tpl.format(A=a, B=b)
